@@ -338,6 +338,21 @@ def check_client_timing(st):
     st.sample({'client_audit_timing': 'arrival second x stall point x -t'}, cap=20)
 
 
+# ---- well-formed SSH-1 handshakes of every packet length modulo 8 (host keys of 1024..1088 bits in steps of 8) and with authentication
+# masks whose last byte is zero: each yields a complete SSH-1 report
+def work_ssh1_shapes(chunk, st):
+    for host_bits, server_bits, amask, fmt in chunk:
+        srv = peer.Server(label='s1', banner=b'SSH-1.5-OpenSSH_3.4', ssh1={'cmask': 0x4c, 'amask': amask, 'host_bits': host_bits, 'server_bits': server_bits}, versions_differ=True)
+        res = H.audit(srv, opts=['-n', '--skip-rate-test'] + (['-j'] if fmt == 'json' else []))
+        root = ('ssh1-shape', host_bits, server_bits, amask, fmt)
+        st.execution(res.world, outcome=('ssh1-shape', res.status), root=root, nontrivial=root)
+        ok = res.status in (0, 2, 3) and not res.hang and not res.exc and ('3des' in res.stdout) and ('blowfish' in res.stdout)
+        if not ok:
+            st.violation('ssh1:well-formed-handshake-without-report:%s' % ('auth-mask-ends-in-zero-byte' if amask & 0xff == 0 else 'key-size'),
+                         {'host_key_bits': host_bits, 'server_key_bits': server_bits, 'auth_mask': amask, 'fmt': fmt, 'status': res.status, 'tail': res.stdout[-200:]})
+    st.sample({'ssh1_shapes': [list(x) for x in chunk[:2]]}, cap=4)
+
+
 def run(tier, seed):
     t0 = time.time()
     st = evidence.Stats()
@@ -378,6 +393,7 @@ def run(tier, seed):
     # one probe connection goes wrong in one of 19 ways, on every probe connection of four servers: the audit still ends with a report
     from props import faultinv as _FI
     par.pmap(_FI.work, _FI.tasks(), extra=(('unaffected',),), stats=st, chunk=6)
+    par.pmap(work_ssh1_shapes, [(hb, sb, am, f) for hb in range(1024, 1096, 8) for sb in (768, 776) for am in (0x0c, 0, 0x100, 0x2c00) for f in ('text', 'json')], stats=st, chunk=8)
     st.extra['reply_mutations'] = len(muts)
     # replay determinism: the same plan must give the same observation when executed again (and again after other executions)
     for arch, short, plan in H.pick(all_tasks, seed + 7, 60):
